@@ -81,7 +81,7 @@ def check_case(case, stats=None, K=oracle.K_QUICK):
     srcs = case["src"]
     main = srcs[""]
     opts = dict(case.get("opts") or {})
-    if opts.get("tail_call_optimization") and not tco_safe(main):
+    if opts.get("tail_call_optimization") and not tco_safe(main) and not case.get("force_tco"):
         opts["tail_call_optimization"] = False
         if stats is not None:
             stats.excluded["tail-call-bit-forced-off(F-D11)"] += 1
@@ -102,6 +102,10 @@ def check_case(case, stats=None, K=oracle.K_QUICK):
         return
     recmap = diag.align(res["code"], res["_verif"]["instructions"])
     ftab = func_table(main)
+    # shapes of open findings give their witnesses a narrow signature (generated programs do not have them)
+    suffix = oracle.shape_suffix(srcs)
+    if opts.get("tail_call_optimization") and not tco_safe(main):
+        suffix += ":tail-call-with-other-call-or-return"
     for es in case["env_seeds"]:
         r = oracle.diff_run(srcs, opts, es, case["pool"], K, res=res)
         if stats is not None:
@@ -117,11 +121,13 @@ def check_case(case, stats=None, K=oracle.K_QUICK):
         m = r["m"]
         bad = check_returns(m, recmap, ftab, bool(opts.get("use_push_pop_functions")))
         if bad:
-            raise Violation(bad[0], dict(detail, **bad[1]))
+            raise Violation(bad[0] + suffix, dict(detail, **bad[1]))
         if k in ("mismatch", "vmerror"):
             sig = r.get("root")
             if not sig:
                 sig = ("C06:arguments-or-results-differ:" + r["detail"]["what"]) if k == "mismatch" else "C09:vmerror:" + r["vmkind"]
+            if sig.startswith("C06:"):
+                sig += suffix
             raise Violation(sig, dict(detail, compare=r.get("detail"), root=r.get("root_detail"), error=r.get("error"),
                                       src_trace=compare.jsonable(r["it"].trace[:10]), vm_trace=compare.jsonable(m.trace[:10])))
         it = r["it"]
